@@ -6,6 +6,7 @@ pub mod c05;
 pub mod c06;
 pub mod c07;
 pub mod c08;
+pub mod c02;
 pub mod c09;
 pub mod c09a;
 pub mod c10;
@@ -43,6 +44,7 @@ pub fn run_property<C: Codec>(id: &str, tier: Tier) -> i32 {
         "C19" => c19::run::<C>(tier),
         "C10" => c10::run::<C>(tier),
         "C09" => c09::run::<C>(tier),
+        "C02" => c02::run::<C>(tier),
         _ => {
             println!("INCONCLUSIVE unknown property {id}");
             2
@@ -85,6 +87,7 @@ pub fn replay<C: Codec>(text: &str) -> i32 {
         "C19" => c19::replay::<C>(text, &known),
         "C10" => c10::replay::<C>(text, &known),
         "C09" => c09::replay::<C>(text, &known),
+        "C02" => c02::replay::<C>(text, &known),
         _ => None,
     };
     match r {
